@@ -561,4 +561,42 @@ def getTableMeta (ts : List TableEntry) (name : Bytes) : Res TableEntry :=
 def tableData {α : Type} [Inhabited α] (range : Range.Rng α) (d : Rect) : Res (Range.Rng α) :=
   if d.sr > d.er ∨ d.sc > d.ec then .ok Range.empty else Range.range range d.sr d.sc d.er d.ec
 
+/-- `Table<T>` (`/repo/src/lib.rs`); its getters `name()`, `sheet_name()`, `columns()`, `data()` are the
+    four projections -/
+structure Table (α : Type) where
+  name : Bytes
+  sheetName : Bytes
+  columns : List Bytes
+  data : Range.Rng α
+
+/-- `impl From<Table<T>> for Range<T>`: `table.data` -/
+def Table.toRange {α : Type} (t : Table α) : Range.Rng α := t.data
+
+/-- `table_by_name` and `table_by_name_ref` (the same code over `worksheet_range` resp.
+    `worksheet_range_ref`, here the parameter `sheetRange`): `get_table_meta(name)?`, the sheet's range `?`,
+    then the data window, wrapped with the metadata -/
+def tableByName {α : Type} [Inhabited α] (ts : List TableEntry) (sheetRange : Bytes → Res (Range.Rng α))
+    (name : Bytes) : Res (Table α) :=
+  match getTableMeta ts name with
+  | .ok e =>
+    match sheetRange e.sheet with
+    | .ok r =>
+      match tableData r e.dims with
+      | .ok d => .ok ⟨e.name, e.sheet, e.columns, d⟩
+      | .err x => .err x | .panic x => .panic x | .outOfFuel => .outOfFuel
+    | .err x => .err x | .panic x => .panic x | .outOfFuel => .outOfFuel
+  | .err x => .err x | .panic x => .panic x | .outOfFuel => .outOfFuel
+
+/-- `Xlsx::worksheet_merge_cells(name)`: the first sheet with that name (`None` if there is none), its part
+    (`None` if the archive lacks it), then the event loop -/
+def worksheetMergeCellsByName (m : Mode) (sheets : List SheetPart) (name : Bytes) : Option (Res (List Rect)) :=
+  match sheets.find? (fun s => s.name = name) with
+  | none => none
+  | some s => s.events.map (worksheetMergeCells m)
+
+/-- `worksheet_merge_cells_at(n)` of `Xlsx` and of `Xls`: the name of the `n`-th sheet of the metadata, then
+    the lookup by name -/
+def worksheetMergeCellsAt {κ β : Type} (names : List κ) (byName : κ → Option β) (n : Nat) : Option β :=
+  names[n]?.bind byName
+
 end Geometry
